@@ -72,6 +72,108 @@ func init() {
 	}
 }
 
+// give every numeric / string slice field reachable from obj a window of ONE shared backing array (capacity reaching
+// over the following windows), as a caller that carved its lists out of one allocation would
+func shareBacking(rv reflect.Value, pools map[reflect.Type]reflect.Value, used map[reflect.Type]int) {
+	switch rv.Kind() {
+	case reflect.Ptr, reflect.Interface:
+		if !rv.IsNil() {
+			shareBacking(rv.Elem(), pools, used)
+		}
+	case reflect.Struct:
+		for i := 0; i < rv.NumField(); i++ {
+			shareBacking(rv.Field(i), pools, used)
+		}
+	case reflect.Slice:
+		et := rv.Type().Elem()
+		if et.Kind() == reflect.Ptr {
+			for i := 0; i < rv.Len(); i++ {
+				shareBacking(rv.Index(i), pools, used)
+			}
+			return
+		}
+		if !rv.CanSet() {
+			return
+		}
+		if _, ok := pools[rv.Type()]; !ok {
+			pools[rv.Type()] = reflect.MakeSlice(rv.Type(), 64, 64)
+		}
+		n := 2
+		off := used[rv.Type()]
+		if off+n > 64 {
+			return
+		}
+		used[rv.Type()] = off + n
+		rv.Set(pools[rv.Type()].Slice(off, off+n)) // len 2, capacity up to the end of the pool
+	}
+}
+
+func init() {
+	prev := suites["C15"]
+	suites["C15"] = func(o *Out, g *Gen, thorough bool) map[string]any {
+		res := prev(o, g, thorough)
+		reps := 2
+		if thorough {
+			reps = 20
+		}
+		for _, t := range schema.Types {
+			for rep := 0; rep < reps; rep++ {
+				// (a) receivers whose lists are windows of one shared allocation
+				v := g.msg(t.ID, true, 0)
+				r := goEnc(v, nil, BufMode{})
+				if r.Class == "ok" {
+					fresh := goDec(t.ID, r.Appended, BufMode{})
+					obj := newObj(g.msg(t.ID, true, 0))
+					shareBacking(reflect.ValueOf(obj), map[reflect.Type]reflect.Value{}, map[reflect.Type]int{})
+					line := fmt.Sprintf("dec %d %s", t.ID, hexOf(r.Appended))
+					begin(line)
+					d := goDecInto(obj, r.Appended, g.mode(), false)
+					o.emit(line, d.Line(), fmt.Sprintf("shared:%d:%s", t.ID, d.Class), true)
+					o.stat("dirty-shared-backing")
+					if d.Class != fresh.Class || (d.Class == "ok" && !valEq(d.Val, fresh.Val)) {
+						o.violate(Violation{Property: "C15", Kind: "direct", What: "decoding into a receiver whose lists share one backing array differs from decoding into a fresh one",
+							Case: line, Expected: trunc(fresh.Line(), 400), Observed: trunc(d.Line(), 400), Key: "shared:" + t.QName()})
+					}
+				}
+				// (b) bytes with an UNREGISTERED discriminator, into a receiver that holds an earlier body / extension
+				for i, op := range t.fieldOps() {
+					if op.K != "union" {
+						continue
+					}
+					tb := schema.Tables[op.Tbl]
+					keys := nearMissKeys(g, tb)
+					kv := keys[g.r.Intn(len(keys))]
+					kop := t.fieldOps()[op.Key]
+					if kop.K == "scalar" {
+						kv.N &= maxOf(kop.W)
+					} else if len(kv.S) > kop.N {
+						continue
+					}
+					bad := g.msg(t.ID, true, 0)
+					bad.Fs[op.Key] = kv
+					_ = i
+					wire, ok := renderPinned(bad) // the body present on the wire belongs to some registered type; the key does not
+					if !ok {
+						continue
+					}
+					fresh := goDec(t.ID, wire, BufMode{})
+					obj := newObj(g.msg(t.ID, true, 0))
+					line := fmt.Sprintf("dec %d %s", t.ID, hexOf(wire))
+					begin(line)
+					d := goDecInto(obj, wire, g.mode(), false)
+					o.emit(line, d.Line(), fmt.Sprintf("dirtyunk:%d:%s", t.ID, d.Class), true)
+					o.stat("dirty-unregistered-key")
+					if d.Class != fresh.Class || (d.Class == "ok" && !valEq(d.Val, fresh.Val)) {
+						o.violate(Violation{Property: "C15", Kind: "direct", What: "decoding bytes with an unregistered discriminator into a used receiver differs from a fresh one",
+							Case: line, Expected: trunc(fresh.Line(), 400), Observed: trunc(d.Line(), 400), Key: "dirtyunk:" + t.QName()})
+					}
+				}
+			}
+		}
+		return res
+	}
+}
+
 // ---- C16: no aliasing between messages and buffers ----
 func scribble(b []byte) {
 	b = b[:cap(b)]
@@ -292,7 +394,12 @@ func init() {
 		for _, t := range schema.Types {
 			for i, op := range t.fieldOps() {
 				if op.K == "union" {
-					for _, kv := range nearMissKeys(g, schema.Tables[op.Tbl])[:8] {
+					all := nearMissKeys(g, schema.Tables[op.Tbl])
+					pick := append([]*Val{}, all[:min(4, len(all))]...)
+					if len(all) > 14 {
+						pick = append(pick, all[len(all)-14:]...) // the special ones: sign characters, blanks, NULs, …
+					}
+					for _, kv := range pick {
 						v := g.msg(t.ID, false, 0)
 						kop := t.fieldOps()[op.Key]
 						if kop.K == "scalar" {
